@@ -45,7 +45,13 @@ name_st = st.one_of(st.sampled_from(PLAIN), st.sampled_from([n for g in NAME_GRO
 extra_val = st.one_of(text_st, st.integers(-5, 5), st.floats(allow_nan=False, allow_infinity=False, width=32), st.booleans(), st.none(),
                       st.lists(text_st, max_size=2), st.just({'date': '@date:2024-02-29', 'item': '</script>', 'amount': 12.5}), st.just('@date:2024-01-31'),
                       st.just(['@date:2023-12-31', 'x']))
+PATTERNS = ['contains("NETFLIX")', 'contains("</script>")', "startswith('UBER')", 'anyof("a", "b", "c", "d")', 'anyof("x")', 'A|B|C|D|E', 'UBER|LYFT', '^START.*END$', 'NETFLIX\\s+COM',
+            'regex("</script>") and amount > 5', '(unbalanced', '[', 'contains(', 'anyof()', '', '^', '$', '|', 'a|' * 5, 'contains("/* DATA_PLACEHOLDER */")', '{amount}', '\\', 'naïve ☕.*']
+match_info_st = st.one_of(st.none(), st.fixed_dictionaries({
+    'pattern': st.one_of(st.sampled_from(PATTERNS), st.sampled_from(HOSTILE), st.none()), 'source': st.sampled_from(['user', 'csv', '</script>', '']),
+    'tag_sources': st.dictionaries(st.sampled_from(['recurring', 'x', '</script>']), st.fixed_dictionaries({'rule': text_st, 'pattern': st.sampled_from(PATTERNS)}), max_size=2)}))
 txn_st = st.fixed_dictionaries({
+    'mi': match_info_st,
     'merchant': name_st, 'cat': st.integers(0, 3), 'desc': text_st,
     'amount': st.one_of(st.integers(-50000, 90000).map(lambda c: c / 100.0), st.sampled_from([0.0, -0.01, 1234.565, 1e6])),
     'mo': st.integers(0, 13), 'day': st.integers(1, 28), 'src': st.sampled_from(['Amex', 'Chase </script>', 'Bank "A"']),
@@ -77,6 +83,8 @@ def build_txns(case):
              'tags': list(t['tags']), 'location': t['loc']}
         if t['extra']:
             d['extra_fields'] = revive(t['extra'])
+        if t.get('mi'):
+            d['match_info'] = dict(t['mi'], tags=list(t['tags']))
         out.append(d)
     # one merchant = one (category, subcategory): labels of mixed merchants are last-writer and not part of the statement
     first = {}
@@ -230,6 +238,7 @@ def check(case, stats: Stats):
             if data.get(hk) != fig[sk]:
                 raise Violation(f'HTML data ({what}) {hk} = {data.get(hk)!r} but the analysis says {fig[sk]!r}', case, 'figures-html')
         seen = {}
+        with_mi = False
         cat_total = 0.0
         tt = {'spending': 0.0, 'income': 0.0, 'investment': 0.0, 'transfer': 0.0}
         for cat in data['categoryView'].values():
@@ -250,6 +259,12 @@ def check(case, stats: Stats):
             got = [(t['description'], t['amount'], t['month'], list(t['tags']), t['source'], t.get('extra_fields')) for t in hm['transactions']]
             if sorted(map(repr, want)) != sorted(map(repr, got)):
                 raise Violation(f'HTML data ({what}) transactions of {name!r} differ:\n analysed {want}\n report   {got}', case, 'html-transactions')
+            mi = bm.get('match_info')
+            if mi:
+                hmi = hm.get('matchInfo') or {}
+                if hmi.get('pattern') != mi.get('pattern', '') or hmi.get('assignedTags') != sorted(mi.get('tags', [])) or hmi.get('tagSources') != mi.get('tag_sources', {}):
+                    raise Violation(f'HTML data ({what}) matchInfo of {name!r} is {hmi} but the analysis has {mi}', case, 'html-matchinfo')
+                with_mi = True
         tol = 1e-6 * max(1.0, sum(abs(t['amount']) for t in txns))
         if abs(cat_total - st_['total_transactions']) > tol:
             raise Violation(f'HTML data ({what}): category totals add up to {cat_total}, analysed total is {st_["total_transactions"]}', case, 'html-category-sum')
